@@ -371,6 +371,7 @@ func ParentMain(self, id, tier string, seed int64, nworkers, softSecs int) int {
 			}
 		}
 		m.States += r.States
+		m.Extra[fmt.Sprintf("worker_wall_s.%02d", i)] = r.WallS
 		m.Transitions += r.Transitions
 		m.Validated += r.Validated
 		m.Nontrivial += r.Nontrivial
